@@ -21,7 +21,7 @@ INFO = dict(
               'a request issued at least one maximum retry interval after the endpoint became reachable is served by it; no connect attempt '
               'happens after the client was closed.',
   bounds={'quick': 'one endpoint, back-off constants = builder defaults (5 s, x^1.2, max 60 s), unreachable for up to 40 s starting in [0, 20] s, 2 probe requests; client closed at a symbolic instant while down, also while a (slow) connect attempt is in flight',
-          'thorough': 'as quick with outages of up to 100 s'},
+          'thorough': 'as quick with outages of up to 100 s, plus two endpoints in one aperture with two 25 s outages whose (symbolic) starts may overlap, under steady traffic'},
   outside=['symbolic back-off parameters (exponentiation is out of reach of SMT; the defaults are concrete)', 'several endpoints failing independently',
            'flapping (more than one unreachable interval)'],
   stubs=['as C01; connect outcome is a function of the virtual time of the attempt'],
@@ -37,10 +37,59 @@ def jobs(tier):
     js.append(dict(name='%s-outage' % k, stack=k, sc='outage', maxdur=40 if tier == 'quick' else 100, cost=3000, shards=16, shard_depth=4))
     js.append(dict(name='%s-close-while-down' % k, stack=k, sc='close', cost=500, shards=4, shard_depth=2))
     js.append(dict(name='%s-close-during-connect' % k, stack=k, sc='closeconn', cost=500, shards=4, shard_depth=2))
+  if tier != 'quick':
+    js.append(dict(name='M-two-endpoints-overlapping-outages', stack='M', sc='two', cost=50000, shards=64, shard_depth=6, max_seconds=5400))
   return js
 
 
+def two_endpoints(job):
+  """two endpoints, both in the aperture (min_size=2), each unreachable during its own symbolic interval (they may
+  overlap); steady probing traffic; afterwards BOTH endpoints must carry traffic again"""
+  def body():
+    from scales.thriftmux import ThriftMux
+    from scales.loadbalancer import ApertureBalancerSink
+    from scales.constants import SinkRole
+    e = stacks.setup()
+    t_base = vtime.now()
+    script = netm.Script(plan=lambda i, p: ('reply', 1))
+    eps = {}
+    win = {}
+    for name, port in (('a', 1), ('b', 2)):
+      u0 = fresh_real('outage_%s_starts' % name, 1, 20); dur = 25      # both outages last 25 s; their starts (hence overlap and order) are symbolic
+      win[name] = (u0, u0 + dur)
+      def conn(kk, t, name=name):
+        rel = t - t_base
+        return 'refuse' if bool(sand(rel >= win[name][0], rel < win[name][1])) else 'ok'
+      eps[name] = e.net.endpoint(name, port, peer=lambda s: netm.MuxPeer(s, script), connect=conn, connect_delay=0)
+    hdecide(win['a'][0] < win['b'][0])
+    b = ThriftMux.NewBuilder(stacks.Hello.Iface).SetUri('tcp://a:1,b:2').SetTimeout(5)
+    c = b.ReplaceRole(SinkRole.LoadBalancer, ApertureBalancerSink.Builder(min_size=2)).Build()
+    for name in ('a', 'b'):
+      def outage(name=name):
+        for s_ in list(eps[name].conns):
+          if not s_.closed: s_.peer_close()
+      gevent.spawn_later(win[name][0], outage)
+    # steady traffic: a pair of concurrent calls every 4 s
+    t_end = 112
+    tick = 0
+    while tick * 8 < t_end:
+      c.hi_async('p%d' % tick); c.hi_async('q%d' % tick)
+      gevent.sleep(8); tick += 1
+    cover('two-endpoints-overlapping-outages')
+    # both outages are over for more than one maximum retry interval: a pair of concurrent calls uses both endpoints
+    n0 = len(script.requests)
+    x = c.hi_async('final1'); y = c.hi_async('final2')
+    gevent.sleep(6)
+    served = set(p.sock.endpoint.addr[0] for (tt, p, m, a, tg) in script.requests[n0:])
+    check('two.both-calls-served', all(len(stacks.events(z)) == 1 and stacks.events(z)[0][1] == 'value' for z in (x, y)))
+    check('two.both-endpoints-carry-traffic-again', served == set(['a', 'b']))
+    check('no-greenlet-error', not vtime.ERRORS)
+    c.DispatcherClose()
+  return body
+
+
 def make_body(job):
+  if job['sc'] == 'two': return two_endpoints(job)
   k = job['stack']; sc = job['sc']
   def body():
     e = stacks.setup()
